@@ -147,6 +147,23 @@ def impl_tokens(text):
     return [(t[0], t[1], text[offs[i]:offs[i + 1]]) for i, t in enumerate(toks)]
 
 
+def impl_tokens_full(text):
+    """[(type, value)] in full-sheet mode, or an exception name"""
+    if _tok[0] is None:
+        impl_tokens('')
+    try:
+        with time_limit(10):
+            return [(t[0], t[1]) for t in _tok[0].tokenize(text, fullsheet=True)]
+    except Exception as x:
+        return type(x).__name__
+
+
+def show_tokens_v(toks):
+    if isinstance(toks, str):
+        return toks
+    return ','.join('%s/%s' % (t, enc(v)) for (t, v) in toks) if toks else '-'
+
+
 def show_tokens(toks):
     if isinstance(toks, str):
         return toks
@@ -202,8 +219,9 @@ def check(self, ctx, cssutils, pairs):
                 pos += len(span)
                 if 0 < pos < len(text) and text[pos:] not in sufs:
                     sufs.append(text[pos:])
-        first_at = len(lines) + 1
+        first_at = len(lines) + 2
         lines.append('tokesc %s %s' % (enc(unrep), enc(text)))
+        lines.append('tokescf %s %s' % (enc(unrep), enc(text)))
         for s_ in sufs:
             lines.append('first %s %s' % (enc(unrep), enc(s_)))
         meta.append((text, e, unrep, a, sufs, first_at))
@@ -218,11 +236,23 @@ def check(self, ctx, cssutils, pairs):
                  kind='E:%s:%s' % ('escaped' if unrep else 'plain', 'guarded' if guard else ('region' if region else 'even')),
                  sample={'tokesc': text, 'encoding': e, 'escaped': esc})
         # -- correspondence: the model's tokens of both texts
-        m = out[first_at - 1]
+        m = out[first_at - 2]
         if m is not None:
             got = 'g=%d A=%s B=%s' % (guard, show_tokens(a), show_tokens(b))
             if m != got:
                 ctx.disagree('tokens of the escaped text', item, got, m)
+        # -- the same in full-sheet mode (completions of unterminated constructs): types and values
+        af, bf = impl_tokens_full(text), impl_tokens_full(esc)
+        mf_ = out[first_at - 1]
+        if mf_ is not None:
+            gotf = 'A=%s B=%s' % (show_tokens_v(af), show_tokens_v(bf))
+            if mf_ != gotf:
+                ctx.disagree('tokens of the escaped text (full sheet)', dict(item, kind='tokescf'), gotf, mf_)
+        if not isinstance(af, str) and not isinstance(bf, str) and [t for t, _ in af] != [t for t, _ in bf]:
+            ctx.violate('escaping what the encoding cannot represent keeps every token type (full-sheet mode)',
+                        dict(item, kind='tokescf'), {'escaped': esc, 'types': [t for t, _ in bf][:12],
+                                                      'expected': [t for t, _ in af][:12]},
+                        known='C08-escaped-unrepresentable' if region else None)
         # -- correspondence + oracle: every production at the first token starts
         for k, s_ in enumerate(sufs):
             check_first(ctx, item, s_, e, unrep, out[first_at + k])
